@@ -26,9 +26,9 @@ struct C19 : vf::Engine {
         double T = r.uni(0.5, 4.0);
         bool hasFinal = r.chance(0.75);
         p.setcfgr("final", hasFinal ? T : -1.0);
-        p.setcfg("every", r.chance(0.25) ? 1 : 0);
+        p.setcfg("every", r.chance(0.25) ? 1 : (r.chance(0.3) ? 2 : 0));
         p.setcfg("steplimit", r.chance(0.2) ? r.range(1, 12) : 0);
-        p.setcfg("interp", r.chance(0.8) ? 1 : 0);
+        p.setcfg("interp", r.chance(0.8) ? (r.chance(0.3) ? 2 : 1) : 0);
         // scheduled-event timeline, fixed before the run (see DESIGN 4.2)
         { int ns = r.chance(0.3) ? 0 : r.range(1, 6); std::vector<double> ts;
           for (int i = 0; i < ns; ++i) {
@@ -123,9 +123,9 @@ struct C19 : vf::Engine {
         if (p.cfgr("initstep", 0) > 0 && fixed <= 0) integ->setInitialStepSize(p.cfgr("initstep", 0));
         const double f = p.cfgr("final", -1) >= 0 ? p.cfgr("final", -1) : Infinity;
         if (f < Infinity) integ->setFinalTime(f);
-        if (p.cfgn("every", 0)) integ->setReturnEveryInternalStep(true);
+        { long ev = p.cfgn("every", 0); if (ev == 1) integ->setReturnEveryInternalStep(true); else if (ev == 2) integ->setReturnEveryInternalStep(false); }   // 0: setter never called (default), 2: explicitly off
         if (p.cfgn("steplimit", 0) > 0) integ->setInternalStepLimit((int)p.cfgn("steplimit", 0));
-        if (!p.cfgn("interp", 1)) integ->setAllowInterpolation(false);
+        { long iv = p.cfgn("interp", 1); if (iv == 0) integ->setAllowInterpolation(false); else if (iv == 2) integ->setAllowInterpolation(true); }   // 1: setter never called (default), 2: explicitly on
         std::vector<double> timeline; { std::istringstream is(p.cfg("sched", "")); double t; while (is >> t) if (t >= 0) timeline.push_back(t); std::sort(timeline.begin(), timeline.end()); }
 
         res.count(std::string("integ_") + IntegNames[ik]);
